@@ -82,6 +82,8 @@ fn dispatch(cmd: &str, opts: &Opts) -> i32 {
         "C18" => props::c18::run(opts),
         "C19" => props::c19::run(opts),
         "C20" => props::c20::run(opts),
+        "C09" => props::c09::run(opts),
+        "C10" => props::c10::run(opts),
         "C12" => props::c12::run(opts),
         "C14" => props::c14::run(opts),
         _ => {
